@@ -42,6 +42,7 @@ var simResources = []sim.Resource{
 	{Group: "apps.example.com", Version: "v1", Resource: "widgets", Kind: "Widget", Namespaced: true, HasStatus: false},
 	{Group: "apps.example.com", Version: "v2", Resource: "widgets", Kind: "Widget", Namespaced: true, HasStatus: false}, // the same resource at another version (its own objects here)
 	{Group: "", Version: "v1", Resource: "namespaces", Kind: "Namespace", Namespaced: false, HasStatus: true},
+	{Group: "serving.example.com", Version: "v1", Resource: "pods", Kind: "Pod", Namespaced: true, HasStatus: true}, // the core Pod's namesake in a named group
 	{Group: "metacontroller.k8s.io", Version: "v1alpha1", Resource: "controllerrevisions", Kind: "ControllerRevision", Namespaced: true, HasStatus: false},
 }
 
@@ -92,9 +93,13 @@ type cworld struct {
 	mcClient  mcclientset.Interface
 }
 
-func newWorld() *cworld {
+func newWorld() *cworld { return newWorldWith(false) }
+
+// newWorldWith: subFirst makes discovery list every "x/status" entry before "x"
+func newWorldWith(subFirst bool) *cworld {
 	installHookTransport()
 	srv := sim.NewServer(simResources)
+	srv.SubresourcesFirst = subFirst
 	cfg := srv.RestConfig()
 	resources := dynamicdiscovery.NewResourceMap(discovery.NewDiscoveryClientForConfigOrDie(cfg))
 	resources.Start(time.Hour)
